@@ -411,6 +411,20 @@ pub fn run(ctx: &mut Ctx) -> (&'static str, String, bool) {
                     ds.push(d);
                 }
             }
+            // millisecond counts that no longer fit 64 (or 96) bits, congruent to small in-range values modulo 2^64 / 2^32:
+            // a cast that drops high bits before the range check would send them as those values
+            for j in [1u128, 2, 3, 1000, 1 << 8] {
+                for w in [0u128, 1, 7, max as u128 / 2, max as u128] {
+                    for modulus in [1u128 << 64, 1u128 << 32, (1u128 << 64) * tf.unit as u128] {
+                        ds.push((modulus * j + w * tf.unit as u128) * 1_000_000);
+                        ds.push((modulus * j + w * tf.unit as u128) * 1_000_000 + 999_999);
+                    }
+                }
+            }
+            for sh in [40u32, 52, 53, 60, 61, 62, 63] {
+                ds.push((1u128 << sh) * 1_000_000_000);
+                ds.push(((1u128 << sh) + 1) * 1_000_000_000 + 384_000_000);
+            }
             let n_enc = if tf.bytes == 2 && thorough { 300_000 } else { n32 };
             for _ in 0..n_enc {
                 let q = match r.below(4) {
